@@ -53,7 +53,7 @@ def run(ctx):
     # R3: request targets (NoDotDot is decided by TLC on the spec; the real reader must produce exactly that path)
     # (_dots: only '.' and one other byte matter to the removal of '..', so paths over {'.', 'a'} are enumerated much deeper)
     cfgs = ["MC_HttpRequestTargets_quick", "MC_HttpRequestTargets_dots14"] if ctx.quick else \
-           ["MC_HttpRequestTargets_quick", "MC_HttpRequestTargets_dots", "MC_HttpRequestTargets_thorough"]
+           ["MC_HttpRequestTargets_quick", "MC_HttpRequestTargets_dots", "MC_HttpRequestTargets_thorough", "MC_HttpRequestTargets_thorough6"]
     for cfg in cfgs:
         c = _cases(ctx, "HttpRequestTargets", cfg, "c09-tgt.cases", ctx.pick(300, 2400), single_action=True)
         ctx.replay(rep, c, label="R/" + cfg[3:], args=args, timeout=ctx.pick(600, 3000))
